@@ -22,8 +22,8 @@ RULE = ("each case is a seeded history on the harness VM with 1-3 real miners cr
         "plain funding, AwardBlockReward, TerminateSectors, injected EnrollCronEvent, CreateMiner) concentrated at deadline "
         "boundary +/- {0,1}, 7% of the ticks with due events run under a fault plan failing one nested send chosen from a dry run "
         "of the same tick (market entry, OnMinerSectorsTerminate, power entry / reward sends, a miner callback or one of its sends); "
-        "cases 0-5 of every run are the directed scenarios f2, f1 (unpadded pledge total), stale-period-start, early-termination "
-        "drain (addressed_sectors_max and fault_max_age lowered in v.policy), idle, stop (all obligations driven to zero: the cron stops and is restarted by a later pre-commit); one model step per message and per tick "
+        "cases 0-6 of every run are the directed scenarios f2, f1 (unpadded pledge total), stale-period-start, early-termination "
+        "drain (addressed_sectors_max and fault_max_age lowered in v.policy), idle, stop (all obligations driven to zero: the cron stops and is restarted by a later pre-commit), deals (a sector carrying a published deal is left faulty until the cron terminates it early; the OnMinerSectorsTerminate send inside that tick is failed and must be tolerated); one model step per message and per tick "
         "(idle stretches run-length encoded in the case file and expanded inside Coq, every tick still compared); "
         "distinct by hash; non-trivial = at least one accepted user message and one successful proving-deadline callback; "
         "`steps` counts run-length items, stats.extra.model_steps_compared is the number of model steps compared (one per message and per tick)")
@@ -63,7 +63,7 @@ def extra_checks(root, work, stats, tier):
         need = ["cb_pd", "cb_et", "cron_starts", "claims_lost_by_injected_failure", "inj_market_fail",
                 "ticks_with_two_callbacks_for_one_miner", "ticks_processing_several_epochs",
                 "et_rounds", "cases_padded", "cases_unpadded", "monitor_class_F2-fresh-miner-no-cron",
-                "messages_at_boundary", "flag_f_enroll", "cron_stops", "scenario_stop_cron_restarted"]
+                "messages_at_boundary", "flag_f_enroll", "cron_stops", "scenario_stop_cron_restarted", "flag_f_deals"]
         if st.get("cases", 0) >= 8:
             for k in need:
                 if not ex.get(k):
